@@ -161,7 +161,11 @@ func planCase(ctx *Ctx, s *schema.Schema, tg planTarget, x reflect.Value, confor
 	}
 	dline := fmt.Sprintf("plan.dec %d %d %s", tg.dyn, tg.tag, hexUp(b))
 	dimpl, back := unmarshalInto(s, tg, append([]byte{}, b...))
-	ctx.Add(dline, dimpl, true, "C01,C02,C06,C18")
+	dprops := "C01,C02,C06"
+	if back != nil {
+		dprops += ",C18"
+	}
+	ctx.Add(dline, dimpl, true, dprops)
 	if !conforming {
 		return b
 	}
@@ -216,8 +220,10 @@ func planDecCase(ctx *Ctx, s *schema.Schema, tg planTarget, b []byte, origin str
 			} else if _, b2 := marshalGuard(back2, tg.tag); !bytes.Equal(b1, b2) {
 				ctx.Res.Violate(report.Violation{Property: "C18", Oracle: "fixed-point", Key: "ttlv:second-reencode-differs:" + s.Dyns[tg.dyn].GoType, Detail: "the second re-encoding differs from the first", Line: line})
 			}
-			// … and through the two text encodings (representable domain only: the text engine covers strings/dates)
 		}
+		// … and through the two text encodings in every order, whenever the strings and dates of the value are
+		// representable there (fix.go: same fixed point reached by binary→XML→JSON→binary and every other order)
+		fixOracle(ctx, line, tg, s.Dyns[tg.dyn].GoType, 0, back)
 	}
 	if impl == "panic" {
 		ctx.Res.Violate(report.Violation{Property: "C02", Oracle: "no-panic", Key: "plan:decode-panic:" + s.Dyns[tg.dyn].GoType, Detail: "typed decoder panicked", Line: line})
@@ -237,7 +243,13 @@ func planDecCase(ctx *Ctx, s *schema.Schema, tg planTarget, b []byte, origin str
 	if over, _ := unmarshalInto(s, tg, big[:len(b)]); over != impl {
 		ctx.Res.Violate(report.Violation{Property: "C02", Oracle: "no-over-read", Key: "plan:reads-beyond-input", Detail: "result depends on bytes beyond the input", Line: line})
 	}
-	ctx.Add(line, impl, true, "C02,C18")
+	// only an ACCEPTED input is C18-relevant: a decoder that rejects more than the model does leaves every fixed
+	// point alone (the disagreement is then C02's to explain)
+	props := "C02"
+	if back != nil {
+		props = "C02,C18"
+	}
+	ctx.Add(line, impl, true, props)
 	ctx.Res.Count("plan.dec." + origin + "." + strings.SplitN(impl, " ", 2)[0])
 }
 
